@@ -698,6 +698,28 @@ class Check(PropertyCheck):
             for i in range(50 if quick else 1500):
                 n += 1
                 self.check_prog(real, g.program(simple=(i % 2 == 0)), "random", fresh=False)
+            # 5. histories in one process: the same Task objects (same uids) used first under an ancestor that
+            #    exports names, then on their own -- each run is judged against the spec of its own tree only, so
+            #    anything a run leaves behind on a Task object (seeded change C27a) shows up in the later run
+            for i in range(25 if quick else 400):
+                base = {**g.program(simple=True), "nocache": True}      # no cache: every job of every run is submitted
+                t = base["tree"]
+                names = [k for k, _ in t["opts"]] or ["a"]
+                for k in t["kids"]:
+                    names += [kk for kk, _ in k["opts"]]
+                exp = [[nm, g.atom()] for nm in sorted(set(names))[:2] if nm not in ("cache_scope", "check_valid")]
+                top = {"uid": 10 ** 6 + self.rng.randrange(10 ** 6), "opts": [], "export": exp, "chain": [], "kids": [t]}
+                hist = [{**base, "tree": top}, base, {**base, "tree": top}, base]
+                for idx, pr in enumerate(hist):
+                    n += 1
+                    got = real.run(pr)
+                    c = classify(pr, got)
+                    self.stat("oracle_history", "ok" if c is None else ("known" if c[0] in (KEY_D1, KEY_D2, KEY_D3) else "NEW"))
+                    if c is not None:
+                        key = c[0] if c[0] in (KEY_D1, KEY_D2, KEY_D3) or idx == 0 else "history:" + c[0]
+                        self.add(key, c[1] + (f" (run {idx + 1} of a history reusing the same Task objects)" if idx else ""),
+                                 {"kind": "history", "programs": hist[:idx + 1], "why": c[1]})
+                        break
         finally:
             real.close()
         self.evaluations += n
@@ -726,6 +748,16 @@ class Check(PropertyCheck):
     # ------------------------------------------------------------------ replay
     def replay(self, doc):
         r = doc.get("replay", {})
+        if r.get("kind") == "history":
+            real = Real()
+            try:
+                c = None
+                for pr in r["programs"]:
+                    c = classify(pr, real.run(pr))
+            finally:
+                real.close()
+            print("replay:", (c[0] + ": " + c[1]) if c else "property holds on this history now")
+            return 1 if c else 0
         if r.get("kind") != "tree":
             print("replay: nothing to replay (no failing input was found); broken obligations:",
                   json.dumps(doc.get("broken_obligations", []))[:2000])
